@@ -34,6 +34,16 @@ CLAIMED = {
    note='Trusted: Coq kernel; Model/NlriOrd.v field orders and hash-input layout (hand-written, tied by a differential run over identical / one-component-differs / triple / cross-variant pairs with a recording Hasher and three buffer types). inetnum Prefix::cmp is a hypothesis of the theorems (external crate); its executable model is compared with the crate on every pair and the order laws are checked on the crate.',
    technique='Coq proof: lexicographic-list total preorder lemma + key injectivity; differential correspondence incl. recorded hash inputs',
    design='5/C14'),
+ 'C13': dict(
+   text='Machine-checked proof (Coq 8.16): for every hop path built from ASNs, AS_SETs and confederation segments (runs of any length, no bound) conversion to wire format yields a valid AS_PATH with every segment count <= 255 whose hop sequence is the original; wire -> hops -> wire preserves hops for every valid wire path of either width; prepending n copies yields exactly n hops plus the original; the 2-octet and 4-octet encodings of the same segments are == and hash identically; conversion to 2-octet form fails iff some ASN exceeds 65535; the path-selection hop count formula. K1 (segment hop > 255 ASNs panics) is excluded by hop_ok and exhibited by a witness.',
+   note='Trusted: Coq kernel; hand-written Model/AsPath.v tied by a differential run (run lengths around/over 255 and 510 - all 0..=600 in the thorough tier -, all segment types, both widths, prepend counts to 600, truncated/invalid wire paths, recorded hash inputs).',
+   technique='Coq proof: induction over hops with a run-splitting lemma (len mod 255 + chunks of 255), refinement to a segment list; differential correspondence',
+   design='5/C13'),
+ 'C04': dict(
+   text='Machine-checked proof (Coq 8.16) over the attribute table generated from the source (type code, canonical flags, validate rule, value_len rule per type): every well-formed typed value of the 20 kinds encodes to header ++ value that decodes (4-octet ASNs) and converts back to the same value consuming exactly the encoding; reported length = octets produced; flags canonical with extended-length exactly above 255 octets; for every value of any length that violates the type rule the attribute is surfaced as Invalid with canonical flags and its raw value; unknown codes keep flags, code and value. List sizes, path lengths and value lengths are unbounded (up to the 16-bit length field).',
+   note='Trusted: Coq kernel (+ vm_compute to look up the generated table); translator tools/gen_attrs.py and its pinned hashes; hand-written compose_value/parse bodies in Model/Attr.v tied by a differential run (all 20 kinds at sizes straddling 255/256 octets and 255 ASNs; every value length 0..=300 x every typed code x both widths x length encodings; unknown codes; random octets) with an independent RFC length table as oracle.',
+   technique='Coq proof: framing lemma + per-shape value lemmas against a generated rule table; differential correspondence',
+   design='5/C04'),
 }
 
 PENDING = {}
